@@ -465,7 +465,7 @@ func RunReplay(family string, path RPath, slot int, stub string) (steps int, div
 			}
 			zd.setBlk("")
 		}
-		if zd != nil && st.Hint.SyncOn && st.Hint.SyncSrc == "z" {
+		if zd != nil && st.Hint.SyncOn && st.Hint.SyncSrc == "z" && st.Want.Link["v"]["z"] == "unsynced" {
 			// the victim must have reached the point where its worker asks the scripted peer for blocks
 			if !zd.waitPending(true, 4*time.Second) {
 				tl.add("  the victim did not ask the scripted peer for blocks")
